@@ -1,5 +1,6 @@
 // `vs <op>*` : four real ValueStore holders with instrumented payload types (property C20).
-//   payload identity is an id stored INSIDE the object (in-place payloads are relocated bitwise by swap).
+//   payload identity is an id stored INSIDE the object (in-place payloads are relocated bitwise by swap); what is stored is id - 1
+//   (untracked prototypes: ~0), so that the first tracked object of a history with value 0 is an in-place payload whose bytes are all zero.
 // `rc <op>*` : four IntrusiveSharedPtr to a RefCountable with a counting destructor.
 // `rcopt <perm>` : an Option shared between a group, two contexts and parsed values; holders destroyed in the given order.
 #include "util.h"
@@ -24,16 +25,16 @@ template <int TY, int PAD> struct P {
 	unsigned id; int val; char pad[PAD ? PAD : 1];
 };
 typedef P<0, 0> S0;   // sizeof == 12? keep it <= 8: see static check below
-struct Small0 { Small0(int v) : id(0), val(v) {} Small0(int v, bool) : id(freshId()), val(v) {} Small0(const Small0& o) : id(freshId()), val(o.val) {} ~Small0() { if (id && id < g_dtor.size()) ++g_dtor[id]; } unsigned id; int val; };
-struct Small1 { Small1(int v) : id(0), val(v) {} Small1(int v, bool) : id(freshId()), val(v) {} Small1(const Small1& o) : id(freshId()), val(o.val) {} ~Small1() { if (id && id < g_dtor.size()) ++g_dtor[id]; } unsigned id; int val; };
-struct Large2 { Large2(int v) : id(0), val(v) {} Large2(int v, bool) : id(freshId()), val(v) {} Large2(const Large2& o) : id(freshId()), val(o.val) {} ~Large2() { if (id && id < g_dtor.size()) ++g_dtor[id]; } unsigned id; int val; char pad[24]; };
-struct Large3 { Large3(int v) : id(0), val(v) {} Large3(int v, bool) : id(freshId()), val(v) {} Large3(const Large3& o) : id(freshId()), val(o.val) {} ~Large3() { if (id && id < g_dtor.size()) ++g_dtor[id]; } unsigned id; int val; char pad[40]; };
+struct Small0 { Small0(int v) : sid(~0u), val(v) {} Small0(int v, bool) : sid(freshId() - 1), val(v) {} Small0(const Small0& o) : sid(freshId() - 1), val(o.val) {} ~Small0() { unsigned id_ = id(); if (id_ && id_ < g_dtor.size()) ++g_dtor[id_]; } unsigned id() const { return sid + 1u; } unsigned sid; int val; };
+struct Small1 { Small1(int v) : sid(~0u), val(v) {} Small1(int v, bool) : sid(freshId() - 1), val(v) {} Small1(const Small1& o) : sid(freshId() - 1), val(o.val) {} ~Small1() { unsigned id_ = id(); if (id_ && id_ < g_dtor.size()) ++g_dtor[id_]; } unsigned id() const { return sid + 1u; } unsigned sid; int val; };
+struct Large2 { Large2(int v) : sid(~0u), val(v) {} Large2(int v, bool) : sid(freshId() - 1), val(v) {} Large2(const Large2& o) : sid(freshId() - 1), val(o.val) {} ~Large2() { unsigned id_ = id(); if (id_ && id_ < g_dtor.size()) ++g_dtor[id_]; } unsigned id() const { return sid + 1u; } unsigned sid; int val; char pad[24]; };
+struct Large3 { Large3(int v) : sid(~0u), val(v) {} Large3(int v, bool) : sid(freshId() - 1), val(v) {} Large3(const Large3& o) : sid(freshId() - 1), val(o.val) {} ~Large3() { unsigned id_ = id(); if (id_ && id_ < g_dtor.size()) ++g_dtor[id_]; } unsigned id() const { return sid + 1u; } unsigned sid; int val; char pad[40]; };
 typedef char static_check_small[sizeof(Small0) <= sizeof(void*) ? 1 : -1];
 typedef char static_check_large[sizeof(Large2) > sizeof(void*) ? 1 : -1];
 template <class T> bool show(const ValueStore& h, int ty, std::string& out) {
 	const T* p = value_cast<T>(&h);
 	if (!p) return false;
-	out = str(ty) + ":" + str(p->val) + ":" + str(p->id);
+	out = str(ty) + ":" + str(p->val) + ":" + str(p->id());
 	return true;
 }
 std::string holders(ValueStore* h, const std::map<int, bool>& heapOf) {
@@ -83,7 +84,7 @@ std::string run_vs(const Args& a) {
 					const char* hb = reinterpret_cast<const char*>(&h[i]);
 					bool inplace = obj >= hb && obj < hb + sizeof(ValueStore);
 					int ty = value_cast<Small0>(&h[i]) ? 0 : value_cast<Small1>(&h[i]) ? 1 : value_cast<Large2>(&h[i]) ? 2 : 3;
-					unsigned id = ty == 0 ? value_cast<Small0>(&h[i])->id : ty == 1 ? value_cast<Small1>(&h[i])->id : ty == 2 ? value_cast<Large2>(&h[i])->id : value_cast<Large3>(&h[i])->id;
+					unsigned id = ty == 0 ? value_cast<Small0>(&h[i])->id() : ty == 1 ? value_cast<Small1>(&h[i])->id() : ty == 2 ? value_cast<Large2>(&h[i])->id() : value_cast<Large3>(&h[i])->id();
 					surrIds.push_back(id);
 					surrendered.push_back(std::make_pair(ty, inplace ? (void*)0 : h[i].extract_raw()));
 				}
